@@ -247,7 +247,9 @@ def r10_8(ctx: Ctx) -> None:
         b = dict(list(zip(params, c.args)) + [(k.arg, k.value) for k in c.keywords])
         def src(p):
             return [norm(s) for s in q.sources_of(f, b[p], depth=3)] if p in b else []
-        ok_blocks = any("len(" in s and s.rstrip(")").endswith("unpackinfo.folders") for s in src("blocks"))
+        ok_blocks = "blocks" in b and any(isinstance(n, ast.Call) and dotted(n.func) == "len" and n.args and isinstance(n.args[0], ast.Attribute)
+                                          and n.args[0].attr == "folders" and norm(n.args[0]).endswith("unpackinfo.folders")
+                                          for s_ in q.sources_of(f, b["blocks"], depth=3) for n in ast.walk(s_))
         ctx.check(ok_blocks, "R10.8", f, c, "blocks = number of folders", "ArchiveInfo.blocks is not len(unpackinfo.folders) (e.g. the number of packed streams, which differs for multi-stream folders)",
                   construct="ArchiveInfo blocks")
         ctx.check(any("_is_solid" in s for s in src("solid")), "R10.8", f, c, "solid = _is_solid()", "ArchiveInfo.solid does not come from _is_solid()", construct="ArchiveInfo solid")
